@@ -47,6 +47,11 @@ var c10switches = []switchSpec{
 }
 
 func c10(c *Ctx) {
+	// c10rejected: "<function>/<constant>" whose arm on the reference tree is empty and falls into the error return
+	// that unknown types get
+	c10rejected := map[string]string{
+		"ApplyToObjects/PatchTypePatchSet": "patch sets are resolved by ComposedTemplates before rendering; reaching ApplyToObjects with one is rejected like an unknown type",
+	}
 	c.R.Rule("R10.1", "exhaustive, fail-closed dispatch over every enum of the renderer; complete conversions table", 10,
 		"a patch/transform type without a case is silently ignored or handled by the wrong arm")
 	for _, sw := range c10switches {
@@ -89,6 +94,9 @@ func c10(c *Ctx) {
 		for _, k := range consts {
 			v := strings.Trim(k.Val().ExactString(), "\"")
 			if !seen[v] {
+				if _, rejected := c10rejected[sw.fn+"/"+k.Name()]; rejected {
+					continue // no arm needed: the no-match path (checked below to fail closed) is what its arm does
+				}
 				missing = append(missing, k.Name())
 			}
 		}
